@@ -64,6 +64,7 @@ import (
 	"fmt"
 	"io"
 	"os"
+	"sort"
 	"sync"
 	"time"
 )
@@ -627,6 +628,16 @@ func (s *persistentHybridSearch) Execute() ([]HybridSearchResult, error) {
 
 	// Merge and deduplicate results by keeping highest score per doc
 	merged := mergeResults(allResults)
+
+	// For a vector-only query the scores are distances (lower is better): every part
+	// contributed its k nearest, so the overall answer is the k nearest of those, not
+	// the k entries with the highest score
+	if len(s.vectorQuery) > 0 && len(s.textQueries) == 0 && len(merged) > s.k {
+		sort.Slice(merged, func(i, j int) bool {
+			return merged[i].Score < merged[j].Score
+		})
+		merged = merged[:s.k]
+	}
 
 	// Sort by score descending and limit to k
 	sortResultsByScore(merged)
